@@ -961,11 +961,13 @@ class EnvCTM():
         yield CTMRG_out(sweeps=sweep, max_dsv=max_dsv, max_D=env.max_D(), converged=converged)
 
     def ctm_conv_corner_spec(env: EnvCTM,
-                             history: Sequence[dict[tuple[Site, str], Tensor]]=[],
+                             history: None | Sequence[dict[tuple[Site, str], Tensor]]=None,
                              corner_tol: None | float=1.0e-8) -> tuple[bool, float, Sequence[dict[tuple[Site, str], Tensor]]]:
         """
         Evaluate convergence of CTM by computing the difference of environment corner spectra between consecutive CTM steps.
         """
+        if history is None:  # a new list per call; a default [] would be shared by all calls, also those of other environments
+            history = []
         corner_sv = env.calculate_corner_svd()
         max_dsv = max(spec_diff(history[-1][k], corner_sv[k]) for k in corner_sv) if history else float('Nan')
         corner_sv['max_dsv'] = max_dsv
